@@ -19,9 +19,20 @@
 #include <thread>
 #include <unordered_map>
 
+#ifdef BFL_VERIF
+#include <functional>
+#endif
+
 namespace bfl {
     class FilteringAlgorithm;
 }
+
+#ifdef BFL_VERIF
+namespace bfl {
+    /* Verification hook: called by the filtering thread at numbered schedule points. Null by default. */
+    extern std::function<void(FilteringAlgorithm*, int)> bfl_verif_hook;
+}
+#endif
 
 
 class bfl::FilteringAlgorithm : public Filter, public Skipper, public Logger
@@ -44,6 +55,14 @@ public:
     unsigned int step_number() override;
 
     bool is_running() override;
+
+#ifdef BFL_VERIF
+    /* Verification accessors: value of the predicate the filtering thread waits on,
+       and a lock-and-unlock of the private mutex. */
+    bool bfl_verif_wait_predicate();
+
+    void bfl_verif_lock_unlock();
+#endif
 
 
 protected:
